@@ -229,6 +229,39 @@ def rule_r3(ck, prog, rule='C10.R3', cls='opentelemetry::context::ThreadLocalCon
                     ck.inconclusive(rule, f, 'detach-true-pops', rp.n, 'frames are removed through Stack::%s, a helper this rule does not model' % strip_targs(other[0].n['c']).rsplit('::', 1)[-1])
                     continue
             ck.verdict(ok, rule, f, 'detach-true-pops', rp.n, 'every path returning true pops' if ok else 'Detach can return true without restoring the previous context')
+    # typestate of a successful Detach: the frame that is popped last is the token's own frame - after the comparison of the token with
+    # the current top came out "equal", exactly one more Pop happens before `return true` (none: the released context stays current;
+    # two: the context below is lost as well)
+    def match_edge(a, b, lab):
+        if not lab or not isinstance(lab[0], int):
+            return False
+        core, pol = norm_cond(lab[1], lab[0])
+        cn = lab[1].nodes[core]
+        if cn['k'] == 'call' and cn.get('op') in ('==', '!=') and any(lab[1].nodes[i]['k'] == 'call' and qmatch(lab[1].nodes[i].get('c', ''), 'Stack::Top') for i in lab[1].subtree(core)):
+            truth = lab[2] if pol else (not lab[2])
+            return truth is (cn['op'] == '==')
+        return False
+    matched = [q for p_ in g.points for (q, lab) in p_.succ if match_edge(p_, q, lab)]
+    for rp in rets:
+        if strip_casts(f, rp.n['e']).get('v') != 1:
+            continue
+        why = None
+        if not matched or not g.must_pass_edge(rp, match_edge):
+            why = 'Detach can return true without the token having been found on top of the stack'
+        else:
+            for b in matched:
+                if rp.id in g.reachable_from([b], avoid=pops):
+                    why = 'after the unwinding has brought the token\'s frame to the top, Detach returns true without popping it: the detached context stays current'
+                    break
+            if why is None:
+                for b in matched:
+                    first = [p_ for p_ in pops if p_.id in g.reachable_from([b], avoid=[x for x in pops if x is not p_])]
+                    for p_ in first:
+                        more = g.reachable_from([q for (q, _l) in p_.succ], avoid_edges=match_edge)
+                        if any(x.id in more for x in pops) and rp.id in more:
+                            why = 'more than one frame is popped after the token\'s frame was found on top: the context attached before it is lost as well'
+        ck.verdict(why is None, rule, f, 'detach-pops-exactly-the-token-frame', rp.n,
+                   'token found on top, then exactly one Pop, then return true' if why is None else why)
     # the unwinding loop is driven by token == Top()
     loops = [n for n in f.nodes if n['k'] in ('while', 'do', 'for')]
     for lp in loops:
@@ -638,12 +671,63 @@ def rule_r5(ck, prog, rule='C10.R5'):
                           'the bytes are compared with %s, which stops at a NUL / is not bounded by the key length' % ','.join(inexact or ['?'])))
 
 
+def rule_r5_first_match(ck, prog, rule='C10.R5'):
+    """the most recent binding of a key decides: in every list walk of Context (GetValue, and HasKey when it walks the list itself)
+    no older node is visited once a node's key compared equal - decided by pinning the key comparison (length equality and byte
+    comparison) to "equal" and asking whether the next iteration is still reachable. HasKey may instead delegate to GetValue."""
+    from .common import body_entry
+    from ..symb import feasible_reach
+    cnt = 0
+    for name in ('GetValue', 'HasKey'):
+        f = prog.function('context::Context::' + name)
+        key = f.params[0]
+        loops = [n for n in f.nodes if n['k'] in ('for', 'while', 'do')]
+        if not loops:
+            if name == 'HasKey':
+                dele = [n for n in f.nodes if n['k'] == 'call' and strip_targs(n.get('c', '')).endswith('Context::GetValue') and n.get('args') and
+                        strip_casts(f, n['args'][0]).get('id') == key['id']]
+                cnt += 1
+                if dele:
+                    ck.holds(rule, f, 'first-match-decides:HasKey', dele[0], 'HasKey asks GetValue for the same key (one lookup, one answer)')
+                else:
+                    ck.inconclusive(rule, f, 'first-match-decides:HasKey', None, 'HasKey neither walks the list nor delegates to GetValue(key)')
+                continue
+            raise AnalysisBroken('Context::%s: list walk not found' % name)
+        lp = loops[0]
+        g = Graph(prog, f, inline=None, sync_lambdas=False)
+        start = body_entry(g, f, lp)
+        body = set(f.subtree(lp['body']))
+        pins = {}
+        for i in sorted(body):
+            n = f.nodes[i]
+            c = comparison(f, i)
+            if not c or c[0] not in ('==', '!='):
+                continue
+            sub = [f.nodes[j] for j in f.subtree(i)]
+            is_len = any(m['k'] == 'member' and m.get('name') == 'key_length_' for m in sub) and \
+                any(m['k'] == 'call' and strip_targs(m.get('c', '')).rsplit('::', 1)[-1] in ('size', 'length') for m in sub)
+            is_bytes = any(m['k'] == 'call' and strip_targs(m.get('c', '')).rsplit('::', 1)[-1] in ('memcmp', 'strncmp', 'strcmp', 'compare') for m in sub)
+            is_view_eq = n['k'] == 'call' and n.get('op') in ('==', '!=') and any(m['k'] == 'ref' and m.get('id') == key['id'] for m in sub)
+            if is_len or is_bytes or is_view_eq:
+                pins[i] = (c[0] == '==')
+        cnt += 1
+        if start is None or not pins:
+            ck.inconclusive(rule, f, 'first-match-decides:%s' % name, None, 'key comparison / iteration start of the list walk not recognised')
+            continue
+        nxt = [q for (q, _l) in start.succ] or [start]
+        again = feasible_reach(g, nxt, [start], pins=pins)
+        ck.verdict(again is None, rule, f, 'first-match-decides:%s' % name, lp,
+                   'once a node\'s key compares equal the walk ends' if again is None else
+                   'Context::%s keeps walking to older nodes after a node with the same key: an older, shadowed binding can answer - %s and GetValue disagree about the same key' % (name, name))
+    return cnt
+
+
 def run(ck, prog):
     ck.doc('C10.R1', 'no write to (or move from) a Context / list node that is not rooted in a fresh local', 8)
     ck.doc('C10.R2', 'the runtime context stack has thread storage in the configured compiler variant', 2)
-    ck.doc('C10.R3', 'Detach/Stack typestate and guards (pops, search direction, push/pop/top/resize shape, Resize callers)', 11)
+    ck.doc('C10.R3', 'Detach/Stack typestate and guards (pops, the token frame popped exactly once, search direction, push/pop/top/resize shape, Resize callers)', 13)
     ck.doc('C10.R4', 'token destructor detaches itself (unconditionally, or on state set only after a successful detach); Attach pushes the token\'s context; Scope attaches the span', 4)
-    ck.doc('C10.R5', 'Context lookup returns a stored value only for an exactly equal key (length and bytes); not-found only after the whole list', 2)
+    ck.doc('C10.R5', 'Context lookup returns a stored value only for an exactly equal key (length and bytes); not-found only after the whole list; the first node with the key decides (GetValue and HasKey)', 4)
     with ck.canary('C10.R1'):
         rule_r1(ck, prog, only='canary::c10::')
     rule_r1(ck, prog)
@@ -652,5 +736,6 @@ def run(ck, prog):
     rule_r3_resize_callers(ck, prog)
     rule_r4(ck, prog)
     rule_r4_token_flag(ck, prog)
+    rule_r5_first_match(ck, prog)
     rule_r5(ck, prog)
     return {}
